@@ -314,6 +314,32 @@ func init() {
 			}
 			return Val{T: rt, L: []string{ref, c64(0), n, n, err.L[0], err.L[1]}}
 		})
+	regExt("io.ReadFull", "fills buf with the next len(buf) bytes of the abstract reader and returns (len(buf), nil), or returns an error having consumed fewer",
+		append(ghostKeys("rpos", "rz", "rpay", "rplen"), "elem:uint8"), func(e *Enc, fr *Frame, args []Val, st *State, reach string, pos token.Pos, rt types.Type) Val {
+			r, buf := args[0].L[1], args[1]
+			err := e.freshErr(st, reach, errorType())
+			rpos := e.gget(st, "rpos", r)
+			rlen := e.gget(st, "rlen", r)
+			rdata := e.gget(st, "rdata", r)
+			ok := e.define("rfok", BoolS(), eq(err.L[0], c64(0)))
+			e.assume(imp(reach, and(app("bvsle", c64(0), rpos), app("bvsle", rpos, rlen), app("bvsle", rlen, c64(maxLen)))))
+			e.assume(imp(reach, imp(ok, app("bvsle", bvadd(rpos, buf.sLen()), rlen))))
+			m := e.get(st, "M|uint8", BV(8))
+			inner := e.fresh("rfd", ArrS(BV(8)))
+			e.assume(imp(and(reach, ok), fmt.Sprintf("(forall ((j (_ BitVec 64))) (! (ite (and (bvsle %[1]s j) (bvslt j (bvadd %[1]s %[2]s))) (= (select %[3]s j) (select %[4]s (bvadd %[5]s (bvsub j %[1]s)))) (= (select %[3]s j) (select (select %[6]s %[7]s) j))) :pattern ((select %[3]s j))))", buf.sOff(), buf.sLen(), inner, rdata, rpos, m, buf.sRef())))
+			e.pendLo, e.pendHi = buf.sOff(), bvadd(buf.sOff(), buf.sLen())
+			e.set(st, "M|uint8", BV(8), sto(m, buf.sRef(), inner), buf.sRef())
+			e.pendLo, e.pendHi = "", ""
+			part := e.fresh("rfpos", bv64)
+			e.assume(imp(reach, and(app("bvsle", rpos, part), app("bvsle", part, rlen))))
+			e.gset(st, "rpos", r, ite(ok, bvadd(rpos, buf.sLen()), part))
+			for _, f := range []string{"rz", "rpay", "rplen"} {
+				e.gset(st, f, r, e.fresh("gh_"+f, ghostFields[f].S))
+			}
+			n := e.fresh("rfn", bv64)
+			e.assume(imp(reach, and(imp(ok, eq(n, buf.sLen())), app("bvsle", c64(0), n), app("bvsle", n, buf.sLen()))))
+			return Val{T: rt, L: []string{n, err.L[0], err.L[1]}}
+		})
 	regExt("encoding/hex.EncodeToString", "returns some string of length 2*len(src)", []string{"$alloc"},
 		func(e *Enc, fr *Frame, args []Val, st *State, reach string, pos token.Pos, rt types.Type) Val {
 			r := e.havocVal(rt, "hex")
